@@ -108,6 +108,7 @@ CHECKS = {
         "assumptions": ["executor stacks are modelled as layer lists (Model/Bind.v); behaviour of each layer is the other properties' business"],
     },
     "C01": {
+        "extra_props": ["Props/C01_link.v"],
         "modules": ["p_c01"],
         "rule": "seeded random stacks: depth 1-6 over {map, flat_map, poll, retry, throttle, timeout, cancel_on_shutdown} in any order, "
                 "base sync or the real ThreadPoolExecutor (1-3 workers) run under the scheduler, 1-4 submissions from 1-3 client threads, "
